@@ -185,6 +185,18 @@ fn check(rep: &mut Report, w: &W, text: &str, op: &OpSpec, refs_as_given: &[R]) 
             }
             let set: ResultTextSelectionSet = sels.iter().cloned().collect();
             out.push(("ResultTextSelectionSet::related_text", set.related_text(op.to_op()).map(|t| (t.begin(), t.end())).collect()));
+            // the references as copies without a handle (what `intersection()` or `textselection_by_offset()` hand out, also
+            // for ranges the resource knows): a reference is what it selects
+            {
+                let rr: &TextResource = res.as_ref();
+                let mut unbound = TextSelectionSet::new(rr.handle().unwrap());
+                for r in refs_as_given {
+                    let t = rr.textselection_by_offset(&Offset::simple(r.0, r.1)).expect("unbound ref");
+                    // (the intersection of a selection with itself: the same range, never a handle)
+                    unbound.add(t.intersection(&t).map(|x| x.0).filter(|x| x.handle().is_none() && x.begin() == r.0 && x.end() == r.1).unwrap_or(t));
+                }
+                out.push(("related_text with references that are copies without a handle", res.related_text(op.to_op(), unbound).map(|t| (t.begin(), t.end())).collect()));
+            }
             out
         }));
         match via {
